@@ -499,7 +499,7 @@ class AcctSim(object):
         return {"amt": amt}
 
     # .. rebalancing ......................................................
-    def predict_rebalance(self, targets, measure, fractional, thr, nlv_f):
+    def predict_rebalance(self, targets, measure, fractional, thr, nlv_f, absolute=True):
         """Model of C03/C12/C13: which trades must be emitted. Returns
         (must_fail, either, plan) with plan[i] = dict(target, imb, iw, emit,
         qty, near, domain_ok)."""
@@ -525,8 +525,8 @@ class AcctSim(object):
             w = targets.get(i, 0.0)
             pos = L.pos[i]
             bid, ask = L.book[i]
-            if w == 0 and pos == 0:
-                continue
+            if w == 0 and (pos == 0 or not absolute):
+                continue        # (relative mode: the allocation is a change; nothing is said about other holdings)
             exact = state_exact
             if w != 0:
                 if measure == "weight":
@@ -543,7 +543,7 @@ class AcctSim(object):
                     target = F(w)
             else:
                 target = F(0)
-            imb = target - pos
+            imb = (target - pos) if absolute else target
             if imb == 0:
                 plan[i] = {"target": target, "imb": imb, "emit": False, "qty": F(0), "near": False, "iw": F(0), "w": w, "exact": exact}
                 continue
@@ -603,7 +603,10 @@ class AcctSim(object):
         near_broke = model_nlv is not None and abs(float(model_nlv)) <= 10 * L.tol()
         before_pos, before_cash, _ = self.snapshot_getters()
         n_rec = len(b.track_record)
-        r = Rebalancing(cs, vals, measure=measure, fractional=fractional, margin=thr, time=self.t)
+        absolute = op.get("absolute", True)
+        r = Rebalancing(cs, vals, measure=measure, absolute=absolute, fractional=fractional, margin=thr, time=self.t)
+        if not absolute:
+            self.probe("relative_rebalance")
         # interest for the elapsed period is credited first, whatever happens next
         cash_before_interest = before_cash
         try:
@@ -627,8 +630,8 @@ class AcctSim(object):
             broke = float(nlv_pre_model) <= 0
             near_broke = abs(float(nlv_pre_model)) <= 10 * L.tol()
             ref_nlv = r.context_pre.nlv if not unset(r.context_pre) else float(nlv_pre_model)
-            must_fail, either, plan, reasons = self.predict_rebalance(targets, measure, fractional, thr, ref_nlv)
-        rec = {"targets": targets, "measure": measure, "fractional": fractional, "margin": thr,
+            must_fail, either, plan, reasons = self.predict_rebalance(targets, measure, fractional, thr, ref_nlv, absolute)
+        rec = {"targets": targets, "measure": measure, "fractional": fractional, "margin": thr, "absolute": absolute,
                "err": type(err).__name__ if err else None}
         if err is not None:
             after_pos, after_cash, _ = self.snapshot_getters()
@@ -708,7 +711,7 @@ class AcctSim(object):
                 return rec
         if "c12" in self.oracles and not self.violations:
             self.check_c12(plan, got, fractional, thr, targets)
-        if "c03" in self.oracles and not self.violations and thr == 0 and fractional:
+        if "c03" in self.oracles and not self.violations and thr == 0 and fractional and absolute:
             self.check_c03(plan, targets, measure, r, op)
         return rec
 
